@@ -72,6 +72,10 @@ register(PropertySpec(
              "an iteration over a lazily consumed domain does not delegate to the shared one-shot source (closing the iteration would close the source)"),
         Rule("MEMO-ON-PULL", _lazy("lazy", "rule_memo_on_pull"), 4,
              "the supplied domain is wrapped lazily, every member of it, and every member pulled is memoised before it is handed out"),
+        Rule("RETRIEVE-MISS-WILDCARD", _lazy("cacheidx", "rule_retrieve_miss_wildcard"), 1,
+             "a lookup that binds a key to a value nothing is stored under is still answered from the entries that leave the key open (rows stored under partial bindings are reported as covered)"),
+        Rule("REPLAY-DEDUP", _lazy("cacheidx", "rule_replay_dedup"), 2,
+             "rows replayed from a result cache are dropped only when they are duplicates (a false row is needed by an enclosing or_), and treated like freshly evaluated rows"),
     ],
     explanation="Decides the clause 'the condition vocabulary denotes the ordinary Python operator': the node each "
                 "public comparison/membership entry constructs (arguments mapped to dataclass fields through the MRO "
@@ -123,6 +127,8 @@ register(PropertySpec(
              "not_(c) leaves c what it was (a leaf is negated on a copy)"),
         Rule("REENTRANT-FLAG", _lazy("values", "rule_reentrant_flag"), 9,
              "a condition object placed twice (c and not_-free siblings of it) is evaluated re-entrantly: each evaluation reads the request for false rows from its own argument"),
+        Rule("REG-BRANCH", _lazy("registry", "rule_reg_branch"), 2,
+             "a predicate called symbolically denotes that predicate: the symbolic constructor returns the expression it built, not the condition it was conjoined into (not_ of it would negate the rest of the query)"),
     ],
     explanation="Negation is a rewrite at construction time, so it is a function on syntax and is decided from the "
                 "source: the inverse-operator table is extracted by abstract evaluation of the setter's CFG (match / if "
@@ -248,7 +254,7 @@ register(PropertySpec(
              "(shared with C20) asking whether a binding is covered does not mark it covered (a sub-query evaluated alone would hide its false rows from a later enclosing query)"),
         Rule("RULE-ON-ENTER", _lazy("ruletree", "rule_rule_on_enter"), 2,
              "a query is flagged as a rule both when it is written inside a rule block and when a rule block is opened on it"),
-        Rule("SHARED-TAIL", _lazy("lazy", "rule_shared_tail"), 3,
+        Rule("SHARED-TAIL", _lazy("lazy", "rule_shared_tail"), 4,
              "an iteration over a lazily consumed domain is handed what other live iterations pulled from the shared source"),
         Rule("SOURCE-NOT-DELEGATED", _lazy("lazy", "rule_source_not_delegated"), 1,
              "an iteration over a lazily consumed domain does not delegate to the shared one-shot source (closing the iteration would close the source)"),
@@ -256,6 +262,8 @@ register(PropertySpec(
              "every evaluation of a quantified query (nested, selected, used as a domain) starts by resetting the duplicate-suppression state below it"),
         Rule("REG-LIVE", _lazy("registry", "rule_reg_live"), 5,
              "the registry-backed domain of a variable does not survive from one evaluation to the next"),
+        Rule("INSERT-RETRIEVABLE", _lazy("cacheidx", "rule_coverage_only_if_stored"), 1,
+             "an index without keys (a comparison between two constants) records no coverage: later evaluations are not answered from an empty index"),
     ],
     explanation="History independence is absence of residue on the shared expression nodes. Decided: where residue is "
                 "written (discovered mechanically from dataclass fields and mutation sites reachable from evaluation "
@@ -274,7 +282,7 @@ register(PropertySpec(
     id="C06",
     title="`the` returns the unique solution or raises, consistently with `an`",
     rules=[
-        Rule("THE-OUTCOME", the_rules.rule_the_outcome, 3,
+        Rule("THE-OUTCOME", the_rules.rule_the_outcome, 4,
              "typestate interpretation of the evaluator The.evaluate calls (constants of the call site propagated; "
              "solutions consumed in {0,1,>=2}; _is_false_ entry values closed under re-evaluation): outcomes are exactly "
              "0 -> raises NoSolutionFound, 1 -> returns the solution, >=2 -> raises MultipleSolutionFound"),
@@ -312,6 +320,8 @@ register(PropertySpec(
              "where a quantified sub-query is replaced by its selected variable, the quantifier (its conditions) is handed on as well"),
         Rule("QUERY-FRESH-STATE", _lazy("history", "rule_query_fresh_state"), 2,
              "every evaluation of a quantified query (nested, selected, used as a domain) starts by resetting the duplicate-suppression state below it"),
+        Rule("MODE-OFF-DOM", _lazy("modes", "rule_mode_off_dom"), 2,
+             "the(...) evaluates with the symbolic mode off: inside a block a Predicate subclass in the description would otherwise be built, not run, and every candidate would count as a solution"),
     ],
     explanation="The three outcomes of `the` are decided by a typestate interpretation of its evaluator over the finite "
                 "state space (result None/solution, solutions consumed 0/1/>=2, _is_false_), exception classes resolved "
@@ -357,6 +367,8 @@ register(PropertySpec(
              "where a quantified sub-query is replaced by its selected variable, the quantifier (its conditions) is handed on as well"),
         Rule("QUERY-FRESH-STATE", _lazy("history", "rule_query_fresh_state"), 2,
              "every evaluation of a quantified query (nested, selected, used as a domain) starts by resetting the duplicate-suppression state below it"),
+        Rule("VARS-COMPLETE", _lazy("subquery", "rule_vars_complete"), 3,
+             "a concatenation reports the variables of the expression it ranges over (the per-evaluation reset of a selected concatenation reaches its parent variable through them)"),
     ],
     explanation="Decides: exactly-one-row by counting yields over all CFG paths; and interface agreement among the "
                 "implementations of the evaluation protocol (a concatenate used where the protocol passes "
@@ -492,10 +504,12 @@ register(PropertySpec(
              "with an empty key list (a comparison between two literals) insert() records nothing as covered"),
         Rule("TRIE-NODE-TYPE", _lazy("cacheidx", "rule_trie_node_type"), 1,
              "the index writer creates inner levels of the type by which the reader tells an inner level from a stored output"),
-        Rule("VALUE-IDENTITY", _lazy("extra", "rule_value_identity"), 5,
+        Rule("VALUE-IDENTITY", _lazy("extra", "rule_value_identity"), 8,
              "two wrapped values are the same exactly when their identifiers agree (equality = the identifier, which the hash is)"),
         Rule("KEYS-DERIVED-FRESH", _lazy("cacheidx", "rule_keys_derived_fresh"), 1,
              "whatever the index keeps that was computed from its key list is recomputed when the key list is assigned"),
+        Rule("STORE-NO-ALIAS", _lazy("cacheidx", "rule_store_no_alias"), 1,
+             "the coverage record of an insert is a copy of the binding, not the caller's dict"),
     ],
     explanation="Decides 'clearing empties it' (the set of fields written by insert is contained in the set reset by "
                 "clear, computed from effects with alias tracking) and one necessary condition of 'each entry paired "
@@ -549,12 +563,16 @@ register(PropertySpec(
              "union / intersection / difference of the value container have the membership table their names say (they compute the variables an operator combines, caches and de-duplicates by)"),
         Rule("TRIE-NODE-TYPE", _lazy("cacheidx", "rule_trie_node_type"), 1,
              "the index writer creates inner levels of the type by which the reader tells an inner level from a stored output"),
-        Rule("VALUE-IDENTITY", _lazy("extra", "rule_value_identity"), 5,
+        Rule("VALUE-IDENTITY", _lazy("extra", "rule_value_identity"), 8,
              "two wrapped values are the same exactly when their identifiers agree (equality = the identifier, which the hash is)"),
         Rule("KEYS-DERIVED-FRESH", _lazy("cacheidx", "rule_keys_derived_fresh"), 1,
              "whatever the index keeps that was computed from its key list is recomputed when the key list is assigned"),
         Rule("NEG-IN-PLACE", _lazy("negation", "rule_neg_in_place"), 1,
              "not_(c) leaves c (and the result caches filled for c) what they were: a leaf negated in place keeps caches that hold the truth values of its old meaning"),
+        Rule("STORE-NO-ALIAS", _lazy("cacheidx", "rule_store_no_alias"), 1,
+             "the coverage record of an insert is a copy of the binding, not the caller's dict"),
+        Rule("RETRIEVE-MISS-WILDCARD", _lazy("cacheidx", "rule_retrieve_miss_wildcard"), 1,
+             "a lookup that binds a key to a value nothing is stored under is still answered from the entries that leave the key open (rows stored under partial bindings are reported as covered)"),
     ],
     explanation="Decides that the runtime switch governs reads and writes consistently: the asymmetric state (reads "
                 "unguarded, writes guarded) changes results because an empty lookup marks everything covered. Not "
@@ -655,6 +673,10 @@ register(PropertySpec(
              "a hashable key built from the content of a row does not depend on the order in which the row was built (sorted / frozenset)"),
         Rule("TRIE-NODE-TYPE", _lazy("cacheidx", "rule_trie_node_type"), 1,
              "the index writer creates inner levels of the type by which the reader tells an inner level from a stored output"),
+        Rule("VALUE-FLAG-NOT-READ", _lazy("values", "rule_value_flag_not_read"), 5,
+             "the truth flag of an operand that was evaluated as a value is not consulted (falsy values are values)"),
+        Rule("INSERT-RETRIEVABLE", _lazy("cacheidx", "rule_insert_retrievable"), 2,
+             "what insert() records as covered is retrievable (a row that binds none of the keys - a for_all on the right of and_ whose condition mentions only the universal variable - included)"),
     ],
     explanation="Universal quantification is implemented as a running intersection; that the accumulated set can only "
                 "shrink, is seeded once and is emptied by a value with no satisfying binding is a typestate property of "
@@ -693,6 +715,10 @@ register(PropertySpec(
              "no given keyword (field constraint / constructor argument) is dropped because of its value"),
         Rule("MEMO-ON-PULL", _lazy("lazy", "rule_memo_on_pull"), 4,
              "the supplied domain is wrapped lazily, every member of it, and every member pulled is memoised before it is handed out"),
+        Rule("NEG-TRUTH", _lazy("negation", "rule_neg_truth"), 16,
+             "the truth a mapping decides from a value (fresh or bound already) follows one table; as a value (false rows requested) every row is handed on, falsy or not"),
+        Rule("VALUE-FLAG-NOT-READ", _lazy("values", "rule_value_flag_not_read"), 5,
+             "the truth flag of an operand that was evaluated as a value is not consulted (falsy values are values)"),
     ],
     explanation="An effect property: in which positions may a value's truthiness decide whether a row survives. The "
                 "positions are the evaluation call sites; their role is the resolved dataclass field of the receiver "
@@ -747,7 +773,7 @@ register(PropertySpec(
              "a conjunction reports its own truth to its parent as unknown when all that is known is that one operand is true"),
         Rule("COVERAGE-SUBSUMPTION", _lazy("cacheidx", "rule_coverage_subsumption"), 4,
              "a stored binding covers a lookup exactly when it is contained in it: per-key test evaluated for same / other / missing"),
-        Rule("SHARED-TAIL", _lazy("lazy", "rule_shared_tail"), 3,
+        Rule("SHARED-TAIL", _lazy("lazy", "rule_shared_tail"), 4,
              "an iteration over a lazily consumed domain is handed what other live iterations pulled from the shared source"),
         Rule("CACHED-POSITION-RESET", _lazy("history", "rule_cached_position_reset"), 1,
              "the memo of the position-dependent duplicate-suppression keys is dropped, for the class of the node being reset, with the per-evaluation state"),
@@ -759,6 +785,12 @@ register(PropertySpec(
              "an iteration over a lazily consumed domain does not delegate to the shared one-shot source (closing the iteration would close the source)"),
         Rule("FLATTEN-EACH", _lazy("extra", "rule_flatten_paths"), 2,
              "each element of a flattened collection is a value of its own (own identifier), so rows for different elements are different rows"),
+        Rule("REPLAY-DEDUP", _lazy("cacheidx", "rule_replay_dedup"), 2,
+             "rows replayed from a result cache are dropped only when they are duplicates (a false row is needed by an enclosing or_), and treated like freshly evaluated rows"),
+        Rule("EVAL-PARENT-SET", _lazy("binding", "rule_eval_parent_set"), 9,
+             "the operators that evaluate shareable operands tell the operand which of its parents is evaluating it, on every path to the evaluation"),
+        Rule("INSERT-RETRIEVABLE", _lazy("cacheidx", "rule_coverage_only_if_stored"), 1,
+             "an index without keys (a comparison between two constants) records no coverage: later evaluations are not answered from an empty index"),
     ],
     explanation="An implicit join is a join only if every operator threads the binding it received to its operands and "
                 "keeps everything its operands bound. Both are provenance facts on the evaluation call sites and the "
@@ -806,6 +838,10 @@ register(PropertySpec(
              "filters that compute the variables identifying a row keep plain variables and one-to-many mappings"),
         Rule("QUANT-NOT-STRIPPED", _lazy("subquery", "rule_quant_not_stripped"), 1,
              "where a quantified sub-query is replaced by its selected variable, the quantifier (its conditions) is handed on as well"),
+        Rule("VALUE-IDENTITY", _lazy("extra", "rule_value_identity"), 8,
+             "the elements of a flattened collection are told apart by identity: equality of wrapped values is the identifier, and the identifier never derives from the value"),
+        Rule("VALUE-TRUTH", _lazy("values", "rule_value_truth"), 10,
+             "a flattened element used as a value (selected, compared) is handed on whatever its truthiness"),
     ],
     explanation="UNNEST is 'one row per inner element, all other variables keep the binding that produced it': the "
                 "first half is a path property of one small generator, the second is the BIND-KEEP provenance rule at "
@@ -837,7 +873,7 @@ register(PropertySpec(
              "(shared with C04) that reset reaches every node of the tree"),
         Rule("CLEAR-COMPLETE", _lazy("cacheidx", "rule_clear_complete"), 4,
              "(shared with C20) clearing an index (after an abandoned evaluation; a class's registry store) empties every store and withdraws the coverage marks"),
-        Rule("SHARED-TAIL", _lazy("lazy", "rule_shared_tail"), 3,
+        Rule("SHARED-TAIL", _lazy("lazy", "rule_shared_tail"), 4,
              "an iteration over a lazily consumed domain is handed what other live iterations pulled from the shared source"),
         Rule("SOURCE-NOT-DELEGATED", _lazy("lazy", "rule_source_not_delegated"), 1,
              "an iteration over a lazily consumed domain does not delegate to the shared one-shot source (closing the iteration would close the source)"),
@@ -889,7 +925,7 @@ register(PropertySpec(
              "a symbolic method call applies the method with all the positional and keyword arguments it was built with"),
         Rule("ROW-FRESH", _lazy("extra", "rule_row_fresh"), 1,
              "(shared with C02) incl. the exception for Union.evaluate_right, which stands only while or_ never builds a Union"),
-        Rule("SHARED-TAIL", _lazy("lazy", "rule_shared_tail"), 3,
+        Rule("SHARED-TAIL", _lazy("lazy", "rule_shared_tail"), 4,
              "an iteration over a lazily consumed domain is handed what other live iterations pulled from the shared source"),
         Rule("CACHED-POSITION-RESET", _lazy("history", "rule_cached_position_reset"), 1,
              "the memo of the position-dependent duplicate-suppression keys is dropped, for the class of the node being reset, with the per-evaluation state"),
@@ -901,7 +937,7 @@ register(PropertySpec(
              "the seen-set (which decides what a duplicate is) reports a binding as seen only through the per-key containment test"),
         Rule("DEDUP-UNDER-ROW-TRUTH", _lazy("binding", "rule_dedup_under_row_truth"), 5,
              "a row is tested for being a duplicate under the truth value it is handed on with (the flag is not assigned between the test and the yield)"),
-        Rule("VALUE-IDENTITY", _lazy("extra", "rule_value_identity"), 5,
+        Rule("VALUE-IDENTITY", _lazy("extra", "rule_value_identity"), 8,
              "two wrapped values are the same exactly when their identifiers agree (equality = the identifier, which the hash is)"),
         Rule("EVAL-FLAG", _lazy("history", "rule_eval_flag"), 3,
              "flags that say 'this part is being evaluated' are cleared on every exit, also when the evaluation is abandoned - a stale flag changes which rows the next evaluation yields"),
@@ -909,6 +945,12 @@ register(PropertySpec(
              "every evaluation of a quantified query (nested, selected, used as a domain) starts by resetting the duplicate-suppression state below it"),
         Rule("DEDUP-CONCLUSIONS", _lazy("binding", "rule_dedup_conclusions"), 2,
              "the duplicate key of an else-if covers what the right side concludes on, also below a selector (rows that differ only there are not duplicates)"),
+        Rule("NEG-TRUTH", _lazy("negation", "rule_neg_truth"), 16,
+             "the truth a mapping decides from a value (fresh or bound already) follows one table; as a value (false rows requested) every row is handed on, falsy or not"),
+        Rule("EVAL-PARENT-SET", _lazy("binding", "rule_eval_parent_set"), 9,
+             "the operators that evaluate shareable operands tell the operand which of its parents is evaluating it, on every path to the evaluation"),
+        Rule("DUP-STABLE", _lazy("lazy", "rule_dup_stable"), 1,
+             "a domain that lists an object twice yields it once in every pass (one inferred instance per assignment, the same number in every evaluation)"),
     ],
     explanation="All clauses are weak but necessary: arguments evaluated under the current binding, one construction "
                 "per combination, no retrieval instead of construction for inferred variables, existing objects passed "
@@ -950,7 +992,7 @@ register(PropertySpec(
              "(shared with C02)"),
         Rule("INSERT-RETRIEVABLE", _lazy("cacheidx", "rule_coverage_only_if_stored"), 1,
              "with an empty key list (a comparison between two literals) insert() records nothing as covered"),
-        Rule("VALUE-IDENTITY", _lazy("extra", "rule_value_identity"), 5,
+        Rule("VALUE-IDENTITY", _lazy("extra", "rule_value_identity"), 8,
              "two wrapped values are the same exactly when their identifiers agree (equality = the identifier, which the hash is)"),
         Rule("FLATTEN-EACH", _lazy("extra", "rule_flatten_paths"), 2,
              "each element of a flattened collection is a value of its own (own identifier), so rows for different elements are different rows"),
@@ -1010,6 +1052,8 @@ register(PropertySpec(
              "(shared with C01) & and | over sub-queries combine the truth flags the quantifiers report"),
         Rule("QUERY-FRESH-STATE", _lazy("history", "rule_query_fresh_state"), 2,
              "every evaluation of a quantified query (nested, selected, used as a domain) starts by resetting the duplicate-suppression state below it"),
+        Rule("EVAL-PARENT-SET", _lazy("binding", "rule_eval_parent_set"), 9,
+             "the operators that evaluate shareable operands tell the operand which of its parents is evaluating it, on every path to the evaluation"),
     ],
     explanation="Decides the structural clauses of the three mechanisms the property is anchored in: (1) a quantifier node in "
                 "the middle of a tree is transparent for truth (same truth table as its conditions, request for false rows passed "
